@@ -278,7 +278,7 @@ private:
         {
             this->_io_dev.seek( get_offset( y + this->_settings._top_left.y ));
 
-            this->_io_dev.read( reinterpret_cast< byte_t* >( rh.data() )
+            this->_io_dev.read_all( reinterpret_cast< byte_t* >( rh.data() )
                         , _pitch
                         );
 
@@ -391,7 +391,7 @@ private:
         {
             this->_io_dev.seek( get_offset( y + this->_settings._top_left.y ));
 
-            this->_io_dev.read( &row.front()
+            this->_io_dev.read_all( &row.front()
                         , row.size()
                         );
 
@@ -449,7 +449,7 @@ private:
         {
             this->_io_dev.seek( get_offset( y + this->_settings._top_left.y ));
 
-            this->_io_dev.read( &row.front()
+            this->_io_dev.read_all( &row.front()
                         , row.size()
                         );
 
